@@ -59,6 +59,9 @@ func init() {
 			w.model.lineages++
 			w.model.cookies[v] = &vfCookieInfo{Subject: st.User, Proven: int(st.N), Carried: int(st.N), AuthAt: validFrom,
 				Exp: now.Add(life), Kind: "session", Lineage: w.model.lineages}
+			if w.prop == "C04" || w.prop == "C12" {
+				w.model.addArt(&vfArtefact{Kind: "cookie", Value: v, Subject: st.User, Exp: now.Add(life), AuthAt: validFrom})
+			}
 		}
 		return p
 	}
